@@ -674,6 +674,41 @@ func numberLoopFn(fd *ast.FuncDecl, loop *ast.ForStmt, st *symtab) (loopVar int,
 			return true
 		})
 	}
+	// then the variables declared before the loop, in order of their first use in the loop body and
+	// in the statements after the loop (so that reordering the declarations does not renumber them)
+	declaredBefore := map[string]bool{}
+	_, at, list := firstFor(fd)
+	for _, s := range list[:at] {
+		ast.Inspect(s, func(n ast.Node) bool {
+			switch x := n.(type) {
+			case *ast.AssignStmt:
+				if x.Tok == token.DEFINE {
+					for _, l := range x.Lhs {
+						if id, ok := l.(*ast.Ident); ok {
+							declaredBefore[id.Name] = true
+						}
+					}
+				}
+			case *ast.ValueSpec:
+				for _, nm := range x.Names {
+					declaredBefore[nm.Name] = true
+				}
+			}
+			return true
+		})
+	}
+	use := func(n ast.Node) {
+		ast.Inspect(n, func(n ast.Node) bool {
+			if id, ok := n.(*ast.Ident); ok && declaredBefore[id.Name] {
+				st.id(id.Name)
+			}
+			return true
+		})
+	}
+	use(loop.Body)
+	for _, s := range list[at+1:] {
+		use(s)
+	}
 	return
 }
 
